@@ -142,7 +142,7 @@ Proof. intros H. apply Forall_forall. intros x Hx. rewrite Forall_forall in H. a
 (* the buffer after resolving url text [u] from directory text [D] *)
 Definition dir_buf (D : string) : list comp := traverse [] (components D).
 Definition res_buf (u D : string) : list comp :=
-  traverse (dir_buf D) (components (trim_end_matches MD u)).
+  traverse (dir_buf D) (components (strip_md u)).
 
 Lemma from_rel_res_buf u D : from_rel_link_url u D = render (res_buf u D).
 Proof. reflexivity. Qed.
@@ -204,10 +204,10 @@ Proof.
 Qed.
 Print Assumptions C15_resolve_shape.
 
-(* the result depends on the url only through the components of the url with `.md` trimmed,
+(* the result depends on the url only through the components of the url with its `.md` taken off,
    and on the directory only through its components *)
 Theorem C15_resolve_components u1 u2 D1 D2 :
-  components (trim_end_matches MD u1) = components (trim_end_matches MD u2) ->
+  components (strip_md u1) = components (strip_md u2) ->
   components D1 = components D2 ->
   from_rel_link_url u1 D1 = from_rel_link_url u2 D2.
 Proof. intros Eu Ed. unfold from_rel_link_url, join_normalized. now rewrite Eu, Ed. Qed.
@@ -220,7 +220,7 @@ Corollary C15_resolve_components_nomd u1 u2 D :
   from_rel_link_url u1 D = from_rel_link_url u2 D.
 Proof.
   intros H1 H2 E. apply C15_resolve_components; [|reflexivity].
-  now rewrite !trim_end_matches_none.
+  now rewrite !strip_md_none.
 Qed.
 
 (* ... and false in general: `a.md` and `a.md/` have the same components, only the first is
@@ -321,11 +321,37 @@ Theorem C15_rewrite_url u D :
 Proof.
   intros K Hmd. subst K.
   destruct (rewrite_structure u D) as (pre & hs & tail & Hok & EK & EU & Hres).
-  unfold from_rel_link_url at 1. rewrite trim_end_matches_none by exact Hmd.
+  unfold from_rel_link_url at 1. rewrite strip_md_none by exact Hmd.
   apply Hres. rewrite EU. apply components_render_comps.
   apply Forall_app; split; [|exact Hok]. apply okn_pars.
 Qed.
 Print Assumptions C15_rewrite_url.
+
+(* the url written for a resolved key, taken as a path (no extension added, none taken off), leads
+   from D to the key: every directory text, every url text *)
+Theorem C15_rewrite_key u D :
+  let K := from_rel_link_url u D in
+  join_normalized D (to_rel_link_url K D) = K.
+Proof.
+  intros K. subst K.
+  destruct (rewrite_structure u D) as (pre & hs & tail & Hok & EK & EU & Hres).
+  apply Hres. rewrite EU. apply components_render_comps.
+  apply Forall_app; split; [|exact Hok]. apply okn_pars.
+Qed.
+Print Assumptions C15_rewrite_key.
+
+(* C15_rewrite_written: the law on the url as iwe WRITES it (`ref_url`: the configured extension,
+   and `.md` where the url itself ends in `.md`) - no hypothesis on the key: for EVERY directory
+   text, EVERY url text and both extensions the written url resolves to K again *)
+Theorem C15_rewrite_written u D ext :
+  ext = MD \/ ext = "" ->
+  let K := from_rel_link_url u D in
+  from_rel_link_url (ref_url (to_rel_link_url K D) ext) D = K.
+Proof.
+  intros He K. subst K.
+  unfold from_rel_link_url at 1. rewrite strip_md_ref_url by exact He. apply C15_rewrite_key.
+Qed.
+Print Assumptions C15_rewrite_written.
 
 Lemma okn_nosep c : okn c -> contains_char SEP (as_str c) = false.
 Proof. intros H. now destruct (okn_as_str c H) as [[_ ?] _]. Qed.
@@ -363,8 +389,9 @@ Corollary C15_rewrite_canonical_dir ds u :
   from_rel_link_url (to_rel_link_url K D) D = K.
 Proof. intros _ D K. apply C15_rewrite. Qed.
 
-(* the `.md` hypothesis is needed: `a.md/.` resolves to a key ending in `.md`, whose url is
-   trimmed again when read back *)
+(* the `.md` hypothesis is needed for the url WITHOUT extension: `a.md/.` resolves to a key ending
+   in `.md`, whose bare url `a.md` names the note `a` when read back (which is why `ref_url` writes
+   `a.md.md`: C15_rewrite_written) *)
 Theorem C15_rewrite_md_refuted :
   exists u D, let K := from_rel_link_url u D in
     ends_with MD K = true /\ from_rel_link_url (to_rel_link_url K D) D <> K.
@@ -495,6 +522,21 @@ Proof.
 Qed.
 Print Assumptions C15_own_dir.
 
+(* the same for the url as it is written: every canonical key, also one ending in `.md` *)
+Theorem C15_own_dir_written ks ext :
+  Forall good_name ks -> ext = MD \/ ext = "" ->
+  let K := join SEPS ks in
+  from_rel_link_url (ref_url (to_rel_link_url K (key_parent K)) ext) (key_parent K) = K.
+Proof.
+  intros Hk He K. subst K. destruct ks as [|s segs] using rev_ind.
+  { destruct He as [-> | ->]; reflexivity. }
+  clear IHsegs.
+  pose proof Hk as Hk'. apply Forall_app in Hk' as [Hsegs Hs]. inversion Hs as [|? ? Hs' _]; subst.
+  rewrite C15_parent_canonical by assumption.
+  now apply roundtrip_written.
+Qed.
+Print Assumptions C15_own_dir_written.
+
 Example C15_own_dir_nonvacuous :
   key_parent "d/e/note" = "d/e" /\ to_rel_link_url "d/e/note" "d/e" = "note" /\
   from_rel_link_url "note" "d/e" = "d/e/note" /\ Forall good_name ["d"; "e"; "note"].
@@ -599,57 +641,40 @@ Proof.
   - rewrite starts_with_strip, E. reflexivity.
 Qed.
 
-(* `trim_end_matches` strips repeatedly: one more `.md` at the end changes nothing *)
-Theorem trim_end_md_app u : trim_end_matches MD (u +++ MD) = trim_end_matches MD u.
-Proof.
-  unfold trim_end_matches. rewrite srev_append. now rewrite trim_start_matches_app.
-Qed.
-
-Theorem trim_end_md_clean u : ends_with MD (trim_end_matches MD u) = false.
-Proof.
-  unfold ends_with, trim_end_matches. rewrite srev_involutive.
-  apply trim_start_matches_clean; [reflexivity | lia].
-Qed.
-
-Theorem trim_end_md_idempotent u :
-  trim_end_matches MD (trim_end_matches MD u) = trim_end_matches MD u.
-Proof. apply trim_end_matches_none, trim_end_md_clean. Qed.
-
-(* C15_md: the exact law — unconditional, because the suffix is stripped as long as it is
-   there: a url with the extension (once, or several times) resolves like the url without *)
-Theorem C15_md u D : from_rel_link_url (u +++ MD) D = from_rel_link_url u D.
-Proof. unfold from_rel_link_url. now rewrite trim_end_md_app. Qed.
+(* C15_md: the exact law — one extension is taken off, whatever is in front of it: a url with the
+   extension resolves like the bare path, also when the path itself ends in `.md` *)
+Theorem C15_md u D : from_rel_link_url (u +++ MD) D = join_normalized D u.
+Proof. unfold from_rel_link_url. now rewrite strip_md_app. Qed.
 Print Assumptions C15_md.
 
-Theorem C15_md_repeat n u D : from_rel_link_url (u +++ srepeat MD n) D = from_rel_link_url u D.
-Proof.
-  revert u; induction n as [|n IH]; intros u; cbn [srepeat].
-  - now rewrite append_nil_r.
-  - rewrite <- sapp_assoc, IH. apply C15_md.
-Qed.
+(* ... which is how the url without the extension resolves, unless that one ends in `.md` *)
+Theorem C15_md_once u D :
+  ends_with MD u = false -> from_rel_link_url (u +++ MD) D = from_rel_link_url u D.
+Proof. intros H. rewrite C15_md. unfold from_rel_link_url. now rewrite strip_md_none. Qed.
+Print Assumptions C15_md_once.
 
-(* the url is read through its trimmed text only *)
-Theorem C15_md_trim u D : from_rel_link_url (trim_end_matches MD u) D = from_rel_link_url u D.
-Proof. unfold from_rel_link_url. now rewrite trim_end_md_idempotent. Qed.
+(* the hypothesis is needed (it was not in the pinned tree, where the extension was stripped as often
+   as it repeats and `x.md.md`, `x.md`, `x` were one note): `x.md.md` is the note `x.md` *)
+Theorem C15_md_once_refuted :
+  exists u D, ends_with MD u = true /\ from_rel_link_url (u +++ MD) D <> from_rel_link_url u D.
+Proof. exists "x.md", "d". split; [reflexivity|]. vm_compute. discriminate. Qed.
+Print Assumptions C15_md_once_refuted.
 
-(* file name <-> key *)
-Theorem C15_file_name_of_path k :
-  ends_with MD k = false -> key_from_file_name (to_path k) = k.
-Proof.
-  intros H. unfold key_from_file_name, to_path. rewrite trim_end_md_app. now apply trim_end_matches_none.
-Qed.
+(* file name <-> key: every key, also one that ends in `.md` *)
+Theorem C15_file_name_of_path k : key_from_file_name (to_path k) = k.
+Proof. unfold key_from_file_name, to_path. apply strip_md_app. Qed.
+Print Assumptions C15_file_name_of_path.
 
-(* a key whose text ends in `.md` does not survive: the F14 class (`x.md.md` on disk) *)
-Theorem C15_file_name_of_path_refuted :
-  exists k, key_from_file_name (to_path k) <> k.
-Proof. exists "x.md". vm_compute. discriminate. Qed.
+(* a file name without the extension is its own key *)
+Theorem C15_file_name_plain n : ends_with MD n = false -> key_from_file_name n = n.
+Proof. apply strip_md_none. Qed.
 
-(* the composite law used by formatting: a url with extension, resolved and written back *)
+(* the composite law used by formatting with refs_extension = ".md": a url with extension, resolved
+   and written back with the extension *)
 Corollary C15_rewrite_md u D :
   let K := from_rel_link_url (u +++ MD) D in
-  ends_with MD K = false ->
   from_rel_link_url (to_rel_link_url K D +++ MD) D = K.
-Proof. intros K H. rewrite C15_md. now apply C15_rewrite. Qed.
+Proof. intros K. apply (C15_rewrite_written (u +++ MD) D MD). now left. Qed.
 Print Assumptions C15_rewrite_md.
 
 (* ================================================================================== *)
